@@ -1,6 +1,6 @@
 (* CompileProofs.v — theorems about the compiler model. *)
 From Coq Require Import ZArith NArith List Bool Lia ZifyBool ZifyNat ZifyN Floats.
-From EvyV Require Import Base Bytecode BytecodeProofs SymTab Vm VmProofs Compile.
+From EvyV Require Import Base Bytecode BytecodeProofs SymTab Vm VmProofs Compile CompileSem.
 Require Import EvyV.Gen.Opcodes.
 Import ListNotations.
 Open Scope Z_scope.
@@ -198,18 +198,6 @@ Proof.
 Qed.
 
 (* the fragment *)
-Fixpoint efrag (e : expr) : bool :=
-  match e with
-  | ENum _ | EBool _ | EStr _ | EVar _ => true
-  | EGroup e1 => efrag e1
-  | EUn UMinus e1 | EUn UBang e1 => efrag e1
-  | EBin _ _ _ l r | EIndex l r => efrag l && efrag r
-  | EArr l => efrag_list l
-  | _ => false
-  end
-with efrag_list (l : elist) : bool :=
-  match l with ENil => true | ECons e t => efrag e && efrag_list t end.
-
 (* every name the symbol table resolves is a global whose slot fits 16 bits,
    and the VM's global slots hold the environment *)
 Definition sym_static (sym : symtab) : Prop :=
@@ -217,13 +205,25 @@ Definition sym_static (sym : symtab) : Prop :=
 Definition globals_hold (env : genv) (sym : symtab) (g : list value) : Prop :=
   forall n y v, st_resolve n sym = Some y -> env n = Some v -> nth_error g (N.to_nat (sidx y)) = Some v.
 
+(* with locals: the slot of every visible name holds its value *)
+Definition slot_holds (y : symbol) (v : value) (ls gs : list value) : Prop :=
+  match sscp y with
+  | GlobalScope => nth_error gs (N.to_nat (sidx y)) = Some v
+  | LocalScope => nth_error ls (N.to_nat (sidx y)) = Some v
+  end.
+Definition vars_hold (env : genv) (sym : symtab) (ls gs : list value) : Prop :=
+  forall n y v, st_resolve n sym = Some y -> env n = Some v -> slot_holds y v ls gs.
+
+Lemma globals_vars_hold env sym ls gs : sym_static sym -> globals_hold env sym gs -> vars_hold env sym ls gs.
+Proof. intros HS HG n y v HR HE. unfold slot_holds. rewrite (HS n y HR). apply (HG n y v HR HE). Qed.
+
 Definition run_to (p : program) (s : vmstate) (len : nat) (v : value) : Prop :=
   exists n, vm_steps n p s =
             Running {| ip := ip s + N.of_nat len; ostack := v :: ostack s; locals := locals s; globals := globals s |}.
 
 Definition expr_correct (e : expr) : Prop :=
   forall env st st' v,
-    compile_expr true e st = COk st' -> eval_expr env e = Some v -> sym_static (csym st) ->
+    compile_expr true e st = COk st' -> eval_expr env e = Some v ->
     csym st' = csym st /\
     exists seg newc,
       ccode st' = ccode st ++ seg /\ cconsts st' = cconsts st ++ newc /\
@@ -231,7 +231,7 @@ Definition expr_correct (e : expr) : Prop :=
         pcode p = pre ++ seg ++ post ->
         pconsts p = map const_value (cconsts st') ++ more ->
         ip s = N.of_nat (List.length pre) ->
-        globals_hold env (csym st) (globals s) ->
+        vars_hold env (csym st) (locals s) (globals s) ->
         N.of_nat (List.length (locals s)) + N.of_nat (List.length (ostack s)) + edepth e <= StackSize ->
         run_to p s (List.length seg) v.
 
@@ -332,7 +332,7 @@ Definition run_tol (p : program) (s : vmstate) (len : nat) (vs : list value) : P
 
 Definition elist_correct (l : elist) : Prop :=
   forall env st st' vs,
-    compile_elist true l st = COk st' -> eval_list env l = Some vs -> sym_static (csym st) ->
+    compile_elist true l st = COk st' -> eval_list env l = Some vs ->
     csym st' = csym st /\
     exists seg newc,
       ccode st' = ccode st ++ seg /\ cconsts st' = cconsts st ++ newc /\
@@ -340,7 +340,7 @@ Definition elist_correct (l : elist) : Prop :=
         pcode p = pre ++ seg ++ post ->
         pconsts p = map const_value (cconsts st') ++ more ->
         ip s = N.of_nat (List.length pre) ->
-        globals_hold env (csym st) (globals s) ->
+        vars_hold env (csym st) (locals s) (globals s) ->
         N.of_nat (List.length (locals s)) + N.of_nat (List.length (ostack s)) + edepth_list l <= StackSize ->
         run_tol p s (List.length seg) vs.
 
@@ -358,11 +358,11 @@ Theorem compile_expr_correct_all :
   (forall p : eplist, True) /\ (forall o : oexpr, True).
 Proof.
   apply expr_mutind; try (intros; exact I).
-  - (* ENum *) intros f HF; unfold expr_correct; intros env st st' v HC HE HS.
+  - (* ENum *) intros f HF; unfold expr_correct; intros env st st' v HC HE.
     simpl in HC, HE. inversion HE; subst v. destruct (const_correct _ _ _ HC) as (A & seg & B & C & D).
     split; [exact A|]. exists seg, [KNum f]. split; [exact B|]. split; [exact C|].
     intros p s more pre post H1 H2 H4 _ H6. eapply (D p s more pre post); eauto.
-  - (* EBool *) intros b HF; unfold expr_correct; intros env st st' v HC HE HS.
+  - (* EBool *) intros b HF; unfold expr_correct; intros env st st' v HC HE.
     simpl in HC, HE. inversion HE; subst v.
     assert (HO : has_operand (if b then OTrue else OFalse) = false) by (destruct b; reflexivity).
     destruct (noarg_step _ _ _ HC HO) as (A & B & C).
@@ -374,31 +374,35 @@ Proof.
       * simpl; lia.
       * change (N.to_nat 0) with 0%nat. lia.
     + reflexivity.
-  - (* EStr *) intros s HF; unfold expr_correct; intros env st st' v HC HE HS.
+  - (* EStr *) intros s HF; unfold expr_correct; intros env st st' v HC HE.
     simpl in HC, HE. inversion HE; subst v. destruct (const_correct _ _ _ HC) as (A & seg & B & C & D).
     split; [exact A|]. exists seg, [KStr s]. split; [exact B|]. split; [exact C|].
     intros p s0 more pre post H1 H2 H4 _ H6. eapply (D p s0 more pre post); eauto.
-  - (* EVar *) intros n HF; unfold expr_correct; intros env st st' v HC HE HS.
+  - (* EVar *) intros n HF; unfold expr_correct; intros env st st' v HC HE.
     simpl in HC, HE. unfold compile_var in HC.
     destruct (st_resolve n (csym st)) as [y|] eqn:ER; [|discriminate].
-    pose proof (HS _ _ ER) as HG. rewrite HG in HC.
-    apply emit_ok in HC. destruct HC as (ins & HM & ->). cbn [csym ccode cconsts].
-    pose proof (make_some_range GetGlobal _ _ eq_refl HM) as HRng.
-    destruct (make_arg_bytes GetGlobal (Z.of_N (sidx y))) as (hi & lo & HM' & E); [reflexivity|lia|].
+    assert (exists o, emit true o [Z.of_N (sidx y)] st = COk st' /\ has_operand o = true /\ is_pure o = true /\
+                      (forall arg, simple_effect o arg = Some (0%N, 1%N)) /\
+                      forall cs ls gs, slot_holds y v ls gs -> pure_sem o (sidx y) cs ls gs [] = POk v) as (o & HEm & HO & HP & HSE & HPS).
+    { unfold slot_holds. destruct (sscp y); [exists GetGlobal|exists GetLocal]; (split; [exact HC|]); repeat split;
+        intros cs ls gs HH; cbn [pure_sem]; rewrite HH; reflexivity. }
+    apply emit_ok in HEm. destruct HEm as (ins & HM & ->). cbn [csym ccode cconsts].
+    pose proof (make_some_range o _ _ HO HM) as HRng.
+    destruct (make_arg_bytes o (Z.of_N (sidx y)) HO) as (hi & lo & HM' & E); [lia|].
     rewrite HM in HM'. inversion HM'; subst ins; clear HM'.
-    split; [reflexivity|]. exists [N_of_opc GetGlobal; hi; lo], []. split; [reflexivity|].
+    split; [reflexivity|]. exists [N_of_opc o; hi; lo], []. split; [reflexivity|].
     split; [rewrite app_nil_r; reflexivity|].
     intros p s more pre post H1 H2 H4 H5 H6. simpl in H6. eapply run_one.
-    + rewrite (fetch_arg p s GetGlobal hi lo pre post H1 H4 eq_refl).
-      apply (exec_pure p s GetGlobal _ _ 0 v); try reflexivity.
+    + rewrite (fetch_arg p s o hi lo pre post H1 H4 HO).
+      apply (exec_pure p s o _ _ 0 v HP (HSE _)).
       * simpl; lia.
-      * cbn [pure_sem]. rewrite E, N2Z.id. rewrite (H5 _ _ _ ER HE). reflexivity.
+      * cbn [firstn N.to_nat]. rewrite E, N2Z.id. apply HPS. apply (H5 _ _ _ ER HE).
       * change (N.to_nat 0) with 0%nat. lia.
     + reflexivity.
-  - (* EArr *) intros l IHl HF; unfold expr_correct; intros env st st' v HC HE HS.
+  - (* EArr *) intros l IHl HF; unfold expr_correct; intros env st st' v HC HE.
     cbn [efrag] in HF. simpl in HC. bind_inv HC. cbn [eval_expr] in HE.
     destruct (eval_list env l) as [vs|] eqn:Evs; [|discriminate]. cbn [option_map] in HE. inversion HE; subst v.
-    destruct (IHl HF env st st0 vs H Evs HS) as (A & seg & newc & B & C & D).
+    destruct (IHl HF env st st0 vs H Evs) as (A & seg & newc & B & C & D).
     apply emit_ok in HC. destruct HC as (ins & HM & ->). cbn [csym ccode cconsts].
     pose proof (make_some_range Array _ _ eq_refl HM) as HRng.
     destruct (make_arg_bytes Array (elist_len l)) as (hi & lo & HM' & E); [reflexivity|lia|].
@@ -427,7 +431,7 @@ Proof.
       cbn [pure_sem]. rewrite rev_involutive. reflexivity.
     + unfold s1; simpl. rewrite EN, app_length. replace (List.length (rev vs) + List.length (ostack s) - List.length (rev vs))%nat with (List.length (ostack s)) by lia. lia.
   - (* EMap *) intros kvs _ np HF. discriminate HF.
-  - (* EUn *) intros op e IHe HF; try (destruct op; discriminate HF); unfold expr_correct; intros env st st' v HC HE HS.
+  - (* EUn *) intros op e IHe HF; try (destruct op; discriminate HF); unfold expr_correct; intros env st st' v HC HE.
     assert (HF1 : efrag e = true) by (destruct op; simpl in HF; congruence).
     specialize (IHe HF1). simpl in HC. bind_inv HC.
     assert (exists a, eval_expr env e = Some a /\
@@ -437,7 +441,7 @@ Proof.
                | UOtherOp => None
                end) = Some v) as (a & Ha & Hv).
     { simpl in HE. destruct op; try discriminate; destruct (eval_expr env e) as [a|]; try discriminate; eauto. }
-    destruct (IHe env st st0 a H Ha HS) as (A & seg & newc & B & C & D).
+    destruct (IHe env st st0 a H Ha) as (A & seg & newc & B & C & D).
     destruct (unop_correct _ _ _ _ _ HC Hv) as (o & HEm & HP & HO & HSE & HPS).
     destruct (noarg_step _ _ _ HEm HO) as (A' & B' & C').
     split; [congruence|]. exists (seg ++ [N_of_opc o]), newc.
@@ -458,14 +462,13 @@ Proof.
     + unfold s1; simpl; lia.
     + unfold s1; simpl. apply HPS.
     + unfold s1; simpl. pose proof (edepth_pos e). simpl in H6. lia.
-  - (* EBin *) intros op lt rt e1 IHe1 e2 IHe2 HF; unfold expr_correct; intros env st st' v HC HE HS.
+  - (* EBin *) intros op lt rt e1 IHe1 e2 IHe2 HF; unfold expr_correct; intros env st st' v HC HE.
     simpl in HF. apply andb_true_iff in HF. destruct HF as [HF1 HF2].
     specialize (IHe1 HF1). specialize (IHe2 HF2). simpl in HC. bind_inv HC. bind_inv H.
     simpl in HE. destruct (eval_expr env e1) as [a|] eqn:Ea; [|discriminate].
     destruct (eval_expr env e2) as [b|] eqn:Eb; [|discriminate].
-    destruct (IHe1 env st st1 a H0 Ea HS) as (A1 & seg1 & newc1 & B1 & C1 & D1).
-    assert (HS1 : sym_static (csym st1)) by (rewrite A1; exact HS).
-    destruct (IHe2 env st1 st0 b H Eb HS1) as (A2 & seg2 & newc2 & B2 & C2 & D2).
+    destruct (IHe1 env st st1 a H0 Ea) as (A1 & seg1 & newc1 & B1 & C1 & D1).
+    destruct (IHe2 env st1 st0 b H Eb) as (A2 & seg2 & newc2 & B2 & C2 & D2).
     destruct (binop_correct _ _ _ _ _ _ _ _ HC HE) as (o & HEm & HP & HO & HSE & HPS).
     destruct (noarg_step _ _ _ HEm HO) as (A' & B' & C').
     split; [congruence|]. exists (seg1 ++ seg2 ++ [N_of_opc o]), (newc1 ++ newc2).
@@ -498,14 +501,13 @@ Proof.
     + unfold s2, s1; simpl; lia.
     + unfold s2, s1; simpl. apply HPS.
     + unfold s2, s1; simpl. pose proof (edepth_pos e2). lia.
-  - (* EIndex *) intros e1 IHe1 e2 IHe2 HF; unfold expr_correct; intros env st st' v HC HE HS.
+  - (* EIndex *) intros e1 IHe1 e2 IHe2 HF; unfold expr_correct; intros env st st' v HC HE.
     simpl in HF. apply andb_true_iff in HF. destruct HF as [HF1 HF2].
     specialize (IHe1 HF1). specialize (IHe2 HF2). simpl in HC. bind_inv HC. bind_inv H.
     simpl in HE. destruct (eval_expr env e1) as [a|] eqn:Ea; [|discriminate].
     destruct (eval_expr env e2) as [b|] eqn:Eb; [|discriminate].
-    destruct (IHe1 env st st1 a H0 Ea HS) as (A1 & seg1 & newc1 & B1 & C1 & D1).
-    assert (HS1 : sym_static (csym st1)) by (rewrite A1; exact HS).
-    destruct (IHe2 env st1 st0 b H Eb HS1) as (A2 & seg2 & newc2 & B2 & C2 & D2).
+    destruct (IHe1 env st st1 a H0 Ea) as (A1 & seg1 & newc1 & B1 & C1 & D1).
+    destruct (IHe2 env st1 st0 b H Eb) as (A2 & seg2 & newc2 & B2 & C2 & D2).
     assert (exists o, emit true o [] st0 = COk st' /\ is_pure o = true /\ has_operand o = false /\
               (forall arg, simple_effect o arg = Some (2, 1)) /\
               forall arg cs ls gs, pure_sem o arg cs ls gs [b; a] = POk v) as (o & HEm & HP & HO & HSE & HPS).
@@ -543,21 +545,20 @@ Proof.
     + unfold s2, s1; simpl. apply HPS.
     + unfold s2, s1; simpl. pose proof (edepth_pos e2). lia.
   - (* ESlice *) intros l _ a _ b _ HF. discriminate HF.
-  - (* EGroup *) intros e IHe HF; unfold expr_correct; intros env st st' v HC HE HS.
-    simpl in HF, HC, HE. destruct (IHe HF env st st' v HC HE HS) as (A & seg & newc & B & C & D).
+  - (* EGroup *) intros e IHe HF; unfold expr_correct; intros env st st' v HC HE.
+    simpl in HF, HC, HE. destruct (IHe HF env st st' v HC HE) as (A & seg & newc & B & C & D).
     split; [exact A|]. exists seg, newc. split; [exact B|]. split; [exact C|]. exact D.
   - (* EUnsupported *) intros w HF. discriminate HF.
-  - (* ENil *) intros _ env st st' vs HC HE HS. simpl in HC, HE. inversion HC; subst st'. inversion HE; subst vs.
+  - (* ENil *) intros _ env st st' vs HC HE. simpl in HC, HE. inversion HC; subst st'. inversion HE; subst vs.
     split; [reflexivity|]. exists [], []. split; [rewrite app_nil_r; reflexivity|]. split; [rewrite app_nil_r; reflexivity|].
     intros p s more pre post _ _ _ _ _. exists 0%nat. simpl. destruct s; simpl. f_equal. f_equal. lia.
-  - (* ECons *) intros e IHe t IHt HF env st st' vs HC HE HS.
+  - (* ECons *) intros e IHe t IHt HF env st st' vs HC HE.
     cbn [efrag_list] in HF. apply andb_true_iff in HF. destruct HF as [HF1 HF2].
     simpl in HC. bind_inv HC. cbn [eval_list] in HE.
     destruct (eval_expr env e) as [v|] eqn:Ev; [|discriminate]. destruct (eval_list env t) as [vt|] eqn:Evt; [|discriminate].
     inversion HE; subst vs.
-    destruct (IHe HF1 env st st0 v H Ev HS) as (A1 & seg1 & newc1 & B1 & C1 & D1).
-    assert (HS1 : sym_static (csym st0)) by (rewrite A1; exact HS).
-    destruct (IHt HF2 env st0 st' vt HC Evt HS1) as (A2 & seg2 & newc2 & B2 & C2 & D2).
+    destruct (IHe HF1 env st st0 v H Ev) as (A1 & seg1 & newc1 & B1 & C1 & D1).
+    destruct (IHt HF2 env st0 st' vt HC Evt) as (A2 & seg2 & newc2 & B2 & C2 & D2).
     split; [congruence|]. exists (seg1 ++ seg2), (newc1 ++ newc2).
     split; [rewrite B2, B1, app_assoc; reflexivity|]. split; [rewrite C2, C1, app_assoc; reflexivity|].
     intros p s more pre post H1 H2 H4 H5 H6. cbn [edepth_list] in H6.
@@ -582,5 +583,28 @@ Proof.
     rewrite app_length, <- app_assoc. simpl. f_equal. f_equal. lia.
 Qed.
 
-Theorem compile_expr_correct : forall e, efrag e = true -> expr_correct e.
+Theorem compile_expr_correct_v : forall e, efrag e = true -> expr_correct e.
 Proof. exact (proj1 compile_expr_correct_all). Qed.
+
+(* the form without locals: every visible name is a global *)
+Definition expr_correct_g (e : expr) : Prop :=
+  forall env st st' v,
+    compile_expr true e st = COk st' -> eval_expr env e = Some v -> sym_static (csym st) ->
+    csym st' = csym st /\
+    exists seg newc,
+      ccode st' = ccode st ++ seg /\ cconsts st' = cconsts st ++ newc /\
+      forall p s more pre post,
+        pcode p = pre ++ seg ++ post ->
+        pconsts p = map const_value (cconsts st') ++ more ->
+        ip s = N.of_nat (List.length pre) ->
+        globals_hold env (csym st) (globals s) ->
+        N.of_nat (List.length (locals s)) + N.of_nat (List.length (ostack s)) + edepth e <= StackSize ->
+        run_to p s (List.length seg) v.
+
+Theorem compile_expr_correct : forall e, efrag e = true -> expr_correct_g e.
+Proof.
+  intros e HF env st st' v HC HE HS. destruct (compile_expr_correct_v e HF env st st' v HC HE) as (A & seg & newc & B & C & D).
+  split; [exact A|]. exists seg, newc. split; [exact B|]. split; [exact C|].
+  intros p s more pre post H1 H2 H4 H5 H6. apply (D p s more pre post H1 H2 H4); [|exact H6].
+  apply globals_vars_hold; assumption.
+Qed.
